@@ -41,7 +41,7 @@ pub struct RHistory {
     pub fragsel: u8,
     /// 0: whole menu; 1: small alignments only, plus over-aligned zero-size types (so that a
     /// zero-size datum is the most aligned of the definition); 2: wide (the first variant has
-    /// 17..=40 fields); 3: long (up to 11 variants: the blocks are replayed twice); 4: big values
+    /// 17..=40 fields, sometimes 66..=100); 3: long (up to 11 variants: the blocks are replayed twice); 4: big values
     #[serde(default)]
     pub profile: u8,
 }
@@ -50,16 +50,18 @@ pub struct RHistory {
 pub const LOW_ALIGN: [usize; 14] = [0, 1, 5, 11, 24, 12, 30, 23, 2, 14, 13, 14, 13, 24];
 
 /// Menu of profile 4: big values (records well above 1 KB).
-pub const BIG: [usize; 14] = [35, 31, 33, 21, 17, 36, 3, 2, 35, 36, 35, 26, 42, 42];
+pub const BIG: [usize; 20] = [35, 31, 33, 21, 17, 36, 3, 2, 35, 36, 35, 26, 42, 42, 47, 48, 47, 48, 49, 2];
 
 /// Menu of profile 5: plain (`Copy`) data only, every one of them allowed to stay uninitialised.
 pub const PLAIN: [usize; 16] = [0, 1, 2, 3, 5, 6, 8, 9, 10, 11, 15, 29, 30, 33, 37, 7];
 
-pub const NAME_POOL: [&str; 13] =
-    ["alpha", "beta", "gamma", "delta", "eps", "zeta", "count2", "is_ok", "the_value", "x_1", "kappa_mu", "n0", "r#type"];
+pub const NAME_POOL: [&str; 16] = [
+    "alpha", "beta", "gamma", "delta", "eps", "zeta", "count2", "is_ok", "the_value", "x_1", "kappa_mu", "n0", "r#type", "userId", "user_id",
+    "Flags",
+];
 
 /// Weighted menu: tokens and owned types are over-represented.
-pub const WEIGHTED: [usize; 81] = [
+pub const WEIGHTED: [usize; 86] = [
     0, 1, 2, 3, 4, 5, 6, 7, 8, 9, 10, 11, 12, 13, 14, 15, 16, 17, 18, 19, 20, 21, 22, 23, 24, 25, 26, 27, 28, 29, 30, // once each
     22, 23, 24, 25, 26, 27, 28, 22, 24, 26, 28, // tokens
     17, 18, 19, 20, 21, 17, // owned
@@ -67,11 +69,12 @@ pub const WEIGHTED: [usize; 81] = [
     31, 32, 33, 31, 32, 31, 32, 33, // large token, vector of tokens, large plain data
     34, 35, 34, // cache-line alignment, 320 bytes
     42, 42, 43, 43, 44,
+    45, 45, 46, 46, 46, // 20 bytes, droppable value aligned on 32
     36, 37, 37, 38, 39, 40, 40, 41, 41, // 1.3 KB token, floats, fn pointer, raw pointer, boxed closure, std-like user path
 ];
 
 pub fn add_req() -> impl Strategy<Value = RReq> {
-    (any::<u16>(), prop::bool::weighted(0.4), prop::option::weighted(0.5, 0u8..13)).prop_map(|(menu, uninit, name)| RReq::Add { menu, uninit, name })
+    (any::<u16>(), prop::bool::weighted(0.4), prop::option::weighted(0.5, 0u8..16)).prop_map(|(menu, uninit, name)| RReq::Add { menu, uninit, name })
 }
 
 /// One variant: removals of carried-over data, additions, possibly the removal of a datum that is
@@ -120,11 +123,11 @@ pub fn rhistory() -> impl Strategy<Value = RHistory> {
                 let adds: Vec<RReq> = reqs.iter().filter(|r| matches!(r, RReq::Add { .. })).cloned().collect();
                 let close = reqs.pop();
                 let f = adds.len() * 7 + rest.len() * 5 + reqs.len();
-                let want = if f % 3 == 0 { 36 + f % 5 } else { 17 + f % 19 };
+                let want = if f % 7 == 3 { 66 + f % 35 } else if f % 3 == 0 { 36 + f % 5 } else { 17 + f % 19 };
                 let mut k = 0usize;
                 while !adds.is_empty() && reqs.iter().filter(|r| matches!(r, RReq::Add { .. })).count() < want {
                     if let RReq::Add { menu, uninit, .. } = &adds[k % adds.len()] {
-                        reqs.push(RReq::Add { menu: menu.wrapping_mul(31).wrapping_add(k as u16 * 977), uninit: *uninit, name: None });
+                        reqs.push(RReq::Add { menu: menu.wrapping_mul(31).wrapping_add((k as u16).wrapping_mul(977)), uninit: *uninit, name: None });
                     }
                     k += 1;
                 }
@@ -152,6 +155,25 @@ pub fn rhistory() -> impl Strategy<Value = RHistory> {
             }
             RHistory { reqs, final_strat, fragsel, profile }
         })
+}
+
+/// Makes the first variant of a history very wide (`want` additions, above the 64 of a machine word of
+/// flags), with both optional fragments; every batch of compiled definitions has one of these.
+pub fn very_wide(mut h: RHistory, want: usize) -> RHistory {
+    let first_close = h.reqs.iter().position(|r| matches!(r, RReq::Close { .. })).unwrap_or(h.reqs.len());
+    let adds: Vec<RReq> = h.reqs[..first_close].iter().filter(|r| matches!(r, RReq::Add { .. })).cloned().collect();
+    let mut extra = vec![];
+    let mut k = 0usize;
+    while !adds.is_empty() && adds.len() + extra.len() < want {
+        if let RReq::Add { menu, uninit, .. } = &adds[k % adds.len()] {
+            extra.push(RReq::Add { menu: menu.wrapping_mul(31).wrapping_add((k as u16).wrapping_mul(977)), uninit: *uninit ^ (k % 3 == 0), name: None });
+        }
+        k += 1;
+    }
+    h.reqs.splice(first_close..first_close, extra);
+    h.profile = 2;
+    h.fragsel = 3;
+    h
 }
 
 pub struct Built {
@@ -283,6 +305,12 @@ pub fn perturbation_applies(idx: usize, info: &TypeInfo, kind: PerturbKind) -> b
     }
 }
 
+/// `VERIF_GEN_LIGHT` (set for the batch interpreted by Miri): no 8 KB / 80 KB fields, at most 42 fields.
+fn light() -> bool {
+    static LIGHT: std::sync::OnceLock<bool> = std::sync::OnceLock::new();
+    *LIGHT.get_or_init(|| std::env::var_os("VERIF_GEN_LIGHT").is_some())
+}
+
 pub fn build_ext(h: &RHistory, ext: &Ext) -> Built {
     let resolver = ProbeResolver { table: Default::default() };
     let mut b = NativeRecordDefinitionBuilder::new(&resolver);
@@ -300,7 +328,7 @@ pub fn build_ext(h: &RHistory, ext: &Ext) -> Built {
     for req in &h.reqs {
         match req {
             RReq::Add { menu: m, uninit, name } => {
-                if b.get_current_data().count() >= if h.profile == 2 { 42 } else { MAX_FIELDS } {
+                if b.get_current_data().count() >= if h.profile == 2 { if light() { 42 } else { 102 } } else { MAX_FIELDS } {
                     continue;
                 }
                 let mut idx = match h.profile {
@@ -309,6 +337,9 @@ pub fn build_ext(h: &RHistory, ext: &Ext) -> Built {
                     5 => PLAIN[pick(*m, PLAIN.len())],
                     _ => WEIGHTED[pick(*m, WEIGHTED.len())],
                 };
+                if light() && idx >= 48 {
+                    idx = if idx == 48 { 35 } else { 33 };
+                }
                 if h.fragsel & 2 == 2 && !MENU[idx].serde_ok {
                     idx = 3;
                 }
